@@ -519,3 +519,16 @@ CANARIES.update({
         job="c16:composition[quick,0]", expect=[_BK + ":equals_the_recipe"],
     ),
 })
+CANARIES.update({
+    "c17-root-torch-nn-layer-not-rehomed": dict(
+        props=["C17", "C15"], file="unit_scaling/transforms/utils.py", module="unit_scaling.transforms.utils",
+        old='    if root_type.__module__.startswith(("torch.nn.", "torch.ao.")):', new='    if root_type.__module__.startswith(("torch.nn.functional.",)):',
+        job="c17:apply_transform[transformed_before=False,root=torch_nn_layer]", expect=["module_handed_to_dynamo_is_of_a_user_class_with_a_user_code_forward"],
+    ),
+    "c17-dynamo-cache-not-reset": dict(
+        props=["C17", "C15"], file="unit_scaling/transforms/utils.py", module="unit_scaling.transforms.utils",
+        old="            torch._dynamo.reset()\n", new="",
+        job="c17:apply_transform[transformed_before=False]", expect=["dynamo_cache_reset_immediately_before_each_compilation"],
+    ),
+})
+
